@@ -721,6 +721,41 @@ def corr_sites(ctx, impl, inputs):
     ctx.branch("sites:corr-cases", len(cases))
 
 
+def corr_exprconfig(ctx, impl, inputs):
+    """default_filters x <%page expression_filter> x the expression's own filters: the text written for `${v ...}` vs
+    `Sites.writeExpression` (visitExpression + create_filter_callable model, with the regenerated source checks)"""
+    st = ctx.stream("corr.exprconfig")
+    drv = ctx.driver()
+    sub = inputs[:: 12] if ctx.quick else inputs[:: 3]
+    known = {"x", "h", "u", "entity", "trim", "str", "n"}
+
+    def wire(names):
+        return "+".join(names) if names else "-"
+    reqs, cases = [], []
+    for dkey, dval in CFG_DEFAULTS.items():
+        for page in CFG_PAGE:
+            for own in CFG_OWN:
+                o_, p_ = [x for x in own.split(",") if x], [x for x in page.split(",") if x]
+                d_ = ["str"] if dval is None else dval
+                if not set(o_ + p_ + d_) <= known:
+                    continue
+                for v in sub:
+                    reqs.append("filt exprcfg %s %s %s %s" % (wire(o_), wire(p_), wire(d_), enc(v)))
+                    cases.append((dkey, page, own, v))
+    outs = drv.ask_many(reqs)
+    for (dkey, page, own, v), o in zip(cases, outs):
+        st["cases"] += 1
+        try:
+            want = enc(cfg_render("top", dkey, page, own, v))
+        except Exception as e:
+            want = "raises " + type(e).__name__
+        if o != want:
+            ctx.disagree("corr.exprconfig", {"input": v, "default_filters": dkey, "page": page, "own": own}, o, want)
+        elif want != enc(v):
+            ctx.nontriv(("exprcfg", dkey, page, own, v))
+    ctx.branch("exprconfig:corr-cases", len(cases))
+
+
 def handler_cases(ctx, cps, rnd):
     """(text, charset) pairs for the error handler"""
     for cs in CHARSETS:
@@ -1222,6 +1257,201 @@ def oracle_sites(ctx, rep, F, inputs):
         ctx.broke("oracle.sites:cache-not-exercised", "the cached forms never went through the cache backend")
 
 
+# --------------------------------------------------------------------------- configurations of an expression
+
+CFG_DEFAULTS = {"None": None, "[]": [], "str": ["str"], "h": ["h"], "trim": ["trim"], "str+trim": ["str", "trim"]}
+CFG_PAGE = ["", "h", "x", "n,h"]
+CFG_OWN = ["", "h", "x", "n", "n,h", "n,x", "trim", "trim,h", "h,trim", "u", "u,h", "entity"]
+CFG_FORMS = {
+    "top": "%(page)s" + SITE_L + "${v%(own)s}" + SITE_R,
+    "in-def": '%(page)s<%%def name="d()">${v%(own)s}</%%def>' + SITE_L + "${d() | n}" + SITE_R,
+    "in-block": "%(page)s" + SITE_L + "<%%block>${v%(own)s}</%%block>" + SITE_R,
+}
+_cfg_cache = {}
+
+
+def effective_chain(own, page, defaults):
+    """the documented rule (filtering.rst): `n` among the expression's own filters disables the <%page> filters and the
+    default filters; otherwise the page filters come before the expression's own, and default_filters before both
+    unless `n` is among them; `n` itself is no filter"""
+    own = [x for x in own.split(",") if x]
+    page = [x for x in page.split(",") if x]
+    defaults = ["str"] if defaults is None else list(defaults)
+    if "n" in own:
+        chain = own
+    else:
+        chain = page + own
+        if defaults and "n" not in chain:
+            chain = defaults + chain
+    return [x for x in chain if x != "n"]
+
+
+def cfg_render(form, dkey, page, own, v):
+    from mako.template import Template
+    key = (form, dkey, page, own)
+    t = _cfg_cache.get(key)
+    if t is None:
+        src = CFG_FORMS[form] % {"page": '<%%page expression_filter="%s"/>' % page if page else "", "own": " | " + own if own else ""}
+        t = _cfg_cache[key] = Template(src, default_filters=CFG_DEFAULTS[dkey])
+    out = t.render_unicode(v=v)
+    return out[out.index(SITE_L) + 1: out.rindex(SITE_R)]
+
+
+def check_exprconfig(F, form, dkey, page, own, v):
+    """whenever h or x is in the effective chain of the expression, the output carries no markup and decodes back
+    -> None | (site, detail)"""
+    chain = effective_chain(own, page, CFG_DEFAULTS[dkey])
+    esc = [x for x in chain if x in ("h", "x")]
+    if not esc:
+        return None
+    where = "%s-markup@config[%s]" % (esc[0], form)
+    try:
+        out = cfg_render(form, dkey, page, own, v)
+    except Exception as e:
+        return where + "-raises:" + type(e).__name__, "%s: %s" % (type(e).__name__, e)
+    last = max(i for i, x in enumerate(chain) if x in ("h", "x"))
+    after = chain[last + 1:]
+    if all(x in ("trim", "str", "u") for x in after):
+        for ch in "<>\"'":
+            if ch in out:
+                return where, "effective chain %s, output %r contains %r" % (chain, out, ch)
+        i = out.find("&")
+        while i >= 0:
+            if not REF_RE.match(out, i):
+                return where, "effective chain %s, output %r: '&' at %d does not start an entity" % (chain, out, i)
+            i = out.find("&", i + 1)
+    if all(x in ("h", "x", "trim", "str") for x in chain):
+        # decode back: every escaping step that really escaped is undone by one html.unescape.  `h` (markupsafe.escape)
+        # returns a Markup and leaves a Markup unchanged; `trim` keeps the kind, `x` and `str` give a plain str
+        want, steps, markup = v, 0, False
+        for x in chain:
+            if x == "trim":
+                want = F.trim(want)
+            elif x == "h":
+                if not markup:
+                    steps += 1
+                markup = True
+            elif x == "x":
+                steps += 1
+                markup = False
+            else:
+                markup = False
+        back = out
+        for _ in range(steps):
+            back = html.unescape(back)
+        if back != want:
+            return where, "effective chain %s, output %r decodes (%d steps) to %r, expected %r" % (chain, out, steps, back, want)
+    return None
+
+
+def oracle_exprconfig(ctx, rep, F, inputs):
+    st = ctx.stream("oracle.exprconfig", "oracle")
+    sub = inputs[:: 4] if ctx.quick else inputs
+    n_esc = 0
+    for form in CFG_FORMS:
+        for dkey in CFG_DEFAULTS:
+            for page in CFG_PAGE:
+                for own in CFG_OWN:
+                    chain = effective_chain(own, page, CFG_DEFAULTS[dkey])
+                    if not any(x in ("h", "x") for x in chain):
+                        ctx.branch("exprconfig:no-escaper-in-chain")
+                        continue
+                    n_esc += 1
+                    for v in sub:
+                        st["cases"] += 1
+                        bad = check_exprconfig(F, form, dkey, page, own, v)
+                        if bad:
+                            site, detail = bad
+                            rep.report(site, {"input": v, "filter": chain and [x for x in chain if x in ("h", "x")][0], "via": "exprconfig",
+                                              "form": form, "default_filters": dkey, "page": page, "own": own}, detail, "oracle.exprconfig",
+                                       lambda t_, a=(form, dkey, page, own), site=site: (check_exprconfig(F, *a, t_) or ("",))[0] == site)
+    ctx.branch("exprconfig:configurations-with-escaper", n_esc)
+
+
+# --------------------------------------------------------------------------- entries that produce bytes
+
+ENTRY_SRC = '<%def name="d(v)">${v}</%def><%def name="e(v)">[${v}]</%def>${v}'
+
+
+def entry_renderers(cs, tmpdir):
+    """name -> (render(s) -> bytes, what the bytes spell for s): every way mako produces encoded output for a template
+    configured with output_encoding=cs, encoding_errors='htmlentityreplace'"""
+    from mako.lookup import TemplateLookup
+    from mako.runtime import Context
+    from mako.template import Template
+    from mako.util import FastEncodingBuffer
+    kw = {"output_encoding": cs, "encoding_errors": "htmlentityreplace"}
+    t = Template(ENTRY_SRC, **kw)
+    lk = TemplateLookup(**kw)
+    lk.put_string("a.html", ENTRY_SRC)
+    lk.put_string("inc.html", '<%include file="a.html" args="v=v"/>')
+    lk.put_string("base.html", "${self.body()}")
+    lk.put_string("child.html", '<%inherit file="base.html"/>${v}')
+    with open(os.path.join(tmpdir, "f.html"), "w", encoding="utf-8") as fh:
+        fh.write(ENTRY_SRC)
+    flk = TemplateLookup(directories=[tmpdir], input_encoding="utf-8", **kw)
+
+    def via_context(s):
+        buf = FastEncodingBuffer(encoding=t.output_encoding, errors=t.encoding_errors)
+        t.render_context(Context(buf, v=s))
+        return buf.getvalue()
+    ident = lambda s: s
+    return {
+        "Template.render": (lambda s: t.render(v=s), ident),
+        "get_def.render": (lambda s: t.get_def("d").render(v=s), ident),
+        "get_def.get_def.render": (lambda s: t.get_def("d").get_def("e").render(v=s), lambda s: "[" + s + "]"),
+        "lookup.render": (lambda s: lk.get_template("a.html").render(v=s), ident),
+        "lookup.get_def.render": (lambda s: lk.get_template("a.html").get_def("e").render(v=s), lambda s: "[" + s + "]"),
+        "lookup.include": (lambda s: lk.get_template("inc.html").render(v=s), ident),
+        "lookup.inherit": (lambda s: lk.get_template("child.html").render(v=s), ident),
+        "file-lookup.render": (lambda s: flk.get_template("f.html").render(v=s), ident),
+        "file-lookup.get_def.render": (lambda s: flk.get_template("f.html").get_def("d").render(v=s), ident),
+        "render_context+FastEncodingBuffer": (via_context, ident),
+    }
+
+
+def check_entry(cs, entry, s, tmpdir, _cache={}):
+    key = (cs, tmpdir)
+    if key not in _cache:
+        _cache[key] = entry_renderers(cs, tmpdir)
+    render, spell = _cache[key][entry]
+    bad = check_handler(spell(s), cs, lambda s_, cs_: render(s))
+    if bad:
+        return bad[0] + "@" + entry, bad[1]
+    return None
+
+
+def oracle_entries(ctx, rep, cps, rnd):
+    """encoding_errors='htmlentityreplace' through every bytes-producing entry x output encodings"""
+    import shutil
+    import tempfile
+    st = ctx.stream("oracle.handler.entries", "oracle")
+    tmpdir = tempfile.mkdtemp(prefix="c10entries_")
+    try:
+        texts = ["\u20ac", "\u017f", "a\u20ac\u20ac<", "\u4e16\U0001f600"] + [chr(c) for c in cps[:: max(1, len(cps) // (300 if ctx.quick else 3000))] if c >= 0x80] \
+            + [s for s in rnd[:200] if "${" not in s]
+        names = None
+        for cs in CHARSETS:
+            try:
+                names = list(entry_renderers(cs, tmpdir))
+            except Exception as e:
+                rep.report("htmlentityreplace-raises:%s@setup" % type(e).__name__, {"input": cs, "charset": cs, "filter": "htmlentityreplace",
+                                                                                    "via": "entry", "entry": "setup"}, str(e), "oracle.handler.entries")
+                continue
+            for entry in names:
+                for s in texts:
+                    st["cases"] += 1
+                    bad = check_entry(cs, entry, s, tmpdir)
+                    if bad:
+                        site, detail = bad
+                        rep.report(site, {"input": s, "charset": cs, "filter": "htmlentityreplace", "via": "entry", "entry": entry}, detail,
+                                   "oracle.handler.entries",
+                                   lambda t_, cs=cs, entry=entry, site=site: (check_entry(cs, entry, t_, tmpdir) or ("",))[0] == site)
+                ctx.branch("entries:%s" % entry, len(texts))
+    finally:
+        shutil.rmtree(tmpdir, ignore_errors=True)
+
+
 DECODE_WAYS = ["call", "filter", "filter-n", "default_filters"]
 
 
@@ -1452,6 +1682,8 @@ def oracle(ctx, impl, cps, shorts, rnd, dense, sites_in):
                 ("decode-objects", lambda: oracle_decode_objects(ctx, rep, F)),
                 ("decode-state", lambda: oracle_decode_state(ctx, rep, F)),
                 ("sites", lambda: oracle_sites(ctx, rep, F, sites_in)),
+                ("exprconfig", lambda: oracle_exprconfig(ctx, rep, F, sites_in)),
+                ("entries", lambda: oracle_entries(ctx, rep, cps, rnd)),
                 ("handler", sec_handler), ("render", sec_render), ("samples", sec_samples)]
     for name, sec in sections:
         try:
@@ -1536,6 +1768,7 @@ def run_streams(ctx):
         corr_spec(ctx, impl, shorts, rnd)
         corr_handler(ctx, impl, handler_cases(ctx, cps, rnd))
         corr_sites(ctx, impl, sites_in)
+        corr_exprconfig(ctx, impl, sites_in)
     finally:
         if job is None or not join_oracle_child(ctx, job):
             oracle(ctx, impl, cps, shorts, rnd, dense, sites_in)
@@ -1598,6 +1831,32 @@ def replay(ctx, data):
         if m is not None:
             print("model         :", [x if x in ("none", "badindex") else dec(x) for x in m.split(" ")])
         r = check_decode_ops(F, ops)
+        print("oracle        :", r or "holds")
+        return r is None
+    if case.get("via") == "exprconfig":
+        a = (case["form"], case["default_filters"], case["page"], case["own"])
+        r = check_exprconfig(F, *a, s)
+        try:
+            print("implementation: default_filters=%s, <%%page expression_filter=%r>, ${v%s} in %s on %r renders %r"
+                  % (case["default_filters"], case["page"], " | " + case["own"] if case["own"] else "", case["form"], s, cfg_render(*a, s)))
+        except Exception as e:
+            print("implementation: raised", type(e).__name__, e)
+        print("effective chain (documented rule):", effective_chain(case["own"], case["page"], CFG_DEFAULTS[case["default_filters"]]))
+        print("oracle        :", r or "holds")
+        return r is None
+    if case.get("via") == "entry":
+        import shutil
+        import tempfile
+        d = tempfile.mkdtemp(prefix="c10entries_")
+        try:
+            r = check_entry(case["charset"], case["entry"], s, d)
+            try:
+                print("implementation: %s under %s on %r -> %r" % (case["entry"], case["charset"], s,
+                                                                   entry_renderers(case["charset"], d)[case["entry"]][0](s)))
+            except Exception as e:
+                print("implementation: %s under %s on %r raised %s: %s" % (case["entry"], case["charset"], s, type(e).__name__, e))
+        finally:
+            shutil.rmtree(d, ignore_errors=True)
         print("oracle        :", r or "holds")
         return r is None
     if case.get("via") == "site":
